@@ -413,6 +413,11 @@ func (n *Net) listenPacket(laddr string) (*PacketConn, error) {
 			n.nextPort++
 			a.Port = n.nextPort
 		}
+		if a.IP == nil || a.IP.IsUnspecified() {
+			// a socket bound to the wildcard address answers from the address it was reached at;
+			// the simulated hosts have one address each: the server is 10.8.0.1
+			a = &net.UDPAddr{IP: net.IPv4(10, 8, 0, 1), Port: a.Port}
+		}
 		addr = a
 	}
 	key := portKey(addr.Port)
